@@ -166,7 +166,9 @@ impl<Body> AmendedRequest<Body> {
     }
 
     pub fn new_uri_from_location(&self, location: &str) -> Result<Uri, Error> {
-        let base = Url::parse(&self.uri().to_string()).expect("base uri to be a url");
+        // The request uri is not necessarily absolute (origin-form with a Host header).
+        let base = Url::parse(&self.uri().to_string())
+            .map_err(|_| Error::BadLocationHeader(location.to_string()))?;
 
         let url = base
             .join(location)
